@@ -56,17 +56,25 @@ fn run(args: &[String]) -> Result<i32, String> {
     })?;
     let mut rep = report::Report::default();
     let mut lines = String::new();
+    let mut written = std::collections::BTreeSet::new();
     for case in &rulesets {
-        for mode in ["tokio", "std"] {
-            let r = threads::run_case(case, n_threads, n_evals, mode)?;
+        // tokio: n_threads workers; tokio4: 4 workers and ten times the evaluations (many suspended evaluations per
+        // worker); std: one hand-rolled executor per thread; migrate: started on one thread, completed on another
+        for mode in ["tokio", "tokio4", "std", "migrate"] {
+            let n = match mode { "tokio4" => n_evals * 10, "migrate" => n_evals * 3, _ => n_evals };
+            let r = threads::run_case(case, n_threads, n, mode)?;
             rep.evaluations += r.evaluations;
             for m in r.mismatches {
                 rep.mismatch("threads:outcomes", m);
             }
             for rec in r.records {
                 rep.case_ok(true, || serde_json::json!({"evaluation": rec["id"], "mode": rec["mode"], "calls": rec["calls"]}));
-                lines.push_str(&serde_json::to_string(&rec).unwrap());
-                lines.push('\n');
+                // identical observations (same ruleset, input, outcomes, invocations) are validated once
+                let key = format!("{}|{}|{}|{}|{}", rec["env"], rec["rules"], rec["input"], rec["x"], rec["calls"]);
+                if written.insert(key) {
+                    lines.push_str(&serde_json::to_string(&rec).unwrap());
+                    lines.push('\n');
+                }
             }
         }
     }
